@@ -270,4 +270,7 @@ NoDup == \A c \in Classes : \A i, j \in 1..Len(free[c]) : i # j => free[c][i] # 
 Exclusive == \A o \in Obj : st[o] = "live" => o \notin Range(free[Cls(o)])
 NoBad == bad = {}
 Quiescent == (\A g \in Gor : mode[g] = "idle" /\ calls[g] = MaxCalls)
+\* design extra (not one of the listed properties): without panics nothing leaks - whenever every goroutine is idle,
+\* every validator that was ever borrowed is back in its pool or has been dropped by a GC (no object stays "live")
+NoLeakWhenIdle == (~AllowPanic /\ \A g \in Gor : mode[g] = "idle") => \A o \in Obj : st[o] # "live"
 =============================================================================
